@@ -1,5 +1,690 @@
 package main
 
+// Model-driven replay for functions whose parameters are plain data: integers, booleans, strings,
+// byte slices / arrays, structs and pointers of those. The solver's model is read back through
+// get-value terms built from the entry state, turned into Go literals, and the real function is
+// called from an injected in-package test. Safety obligations expect a panic; postconditions are
+// compiled from the contract expression to Go (quantifiers become loops over a finite candidate
+// range taken from the model).
+
+import (
+	"fmt"
+	"go/types"
+	"os"
+	"path/filepath"
+	"sort"
+	"strconv"
+	"strings"
+
+	"golang.org/x/tools/go/ssa"
+)
+
+const replayMaxElems = 48
+
+type rnode struct {
+	kind   string // int, bool, string, slice, array, struct, ptr
+	ty     types.Type
+	term   Term     // scalar value / slice header / string
+	lenT   Term     // slice / string length
+	elems  []*rnode // first replayMaxElems elements (slice/array), fields (struct), pointee (ptr)
+	chars  []Term   // string: str_at terms
+	lits   []string // string: literals to compare with
+	litEqs []Term
+	arrLen int64
+}
+
+type replaySpec struct {
+	fn      *ssa.Function
+	pkgDir  string
+	pkgName string
+	params  []*rnode
+	names   []string
+	ensures []*Clause
+	ok      bool
+	why     string
+}
+
+// buildReplaySpec describes how to read the function's arguments back from a model.
+func (c *FuncCtx) buildReplaySpec(fr *Frame, st *State) *replaySpec {
+	fn := fr.fn
+	rs := &replaySpec{fn: fn, ok: true}
+	if fn.Pkg == nil || fn.Parent() != nil {
+		rs.ok, rs.why = false, "closures are not replayed"
+		return rs
+	}
+	rs.pkgName = fn.Pkg.Pkg.Name()
+	rs.pkgDir = "./" + strings.TrimPrefix(strings.TrimPrefix(fn.Pkg.Pkg.Path(), repoModule), "/")
+	for _, p := range fn.Params {
+		n := c.rnodeFor(fr.params[p.Name()].T, p.Type(), st, 0)
+		if n == nil {
+			rs.ok, rs.why = false, "parameter "+p.Name()+" of type "+p.Type().String()+" is not plain data"
+			return rs
+		}
+		rs.params = append(rs.params, n)
+		rs.names = append(rs.names, p.Name())
+	}
+	if fr.con != nil {
+		rs.ensures = fr.con.Ensures
+	}
+	return rs
+}
+
+func (c *FuncCtx) rnodeFor(t Term, ty types.Type, st *State, depth int) *rnode {
+	if depth > 3 {
+		return nil
+	}
+	switch u := ty.Underlying().(type) {
+	case *types.Basic:
+		switch {
+		case u.Info()&types.IsInteger != 0:
+			return &rnode{kind: "int", ty: ty, term: t}
+		case u.Info()&types.IsBoolean != 0:
+			return &rnode{kind: "bool", ty: ty, term: t}
+		case u.Info()&types.IsString != 0:
+			n := &rnode{kind: "string", ty: ty, term: t, lenT: c.strlen(t)}
+			bs := c.sortOf(types.Typ[types.Uint8])
+			c.sc.declFun("str_at", []Sort{SStr, c.sc.idxSort()}, bs)
+			for i := 0; i < replayMaxElems; i++ {
+				n.chars = append(n.chars, mk(bs, "str_at", t, c.sc.idxLit(int64(i))))
+			}
+			return n
+		}
+		return nil
+	case *types.Slice:
+		es := c.sortOf(u.Elem())
+		arr := sel(c.get(st, c.regElem(es)), slPtr(t), arraySort(c.sc.idxSort(), es))
+		n := &rnode{kind: "slice", ty: ty, term: t, lenT: c.slLen(t)}
+		for i := 0; i < replayMaxElems; i++ {
+			e := c.rnodeFor(sel(arr, c.add(c.slOff(t), c.sc.idxLit(int64(i))), es), u.Elem(), st, depth+1)
+			if e == nil {
+				return nil
+			}
+			n.elems = append(n.elems, e)
+		}
+		return n
+	case *types.Array:
+		if u.Len() > 256 {
+			return nil
+		}
+		n := &rnode{kind: "array", ty: ty, arrLen: u.Len()}
+		for i := int64(0); i < u.Len(); i++ {
+			e := c.rnodeFor(sel(t, c.sc.idxLit(i), c.sortOf(u.Elem())), u.Elem(), st, depth+1)
+			if e == nil {
+				return nil
+			}
+			n.elems = append(n.elems, e)
+		}
+		return n
+	case *types.Struct:
+		n := &rnode{kind: "struct", ty: ty}
+		for i := 0; i < u.NumFields(); i++ {
+			e := c.rnodeFor(c.fieldSel(t, ty, i), u.Field(i).Type(), st, depth+1)
+			if e == nil {
+				return nil
+			}
+			n.elems = append(n.elems, e)
+		}
+		return n
+	case *types.Pointer:
+		var inner Term
+		if arr, ok := u.Elem().Underlying().(*types.Array); ok {
+			s := c.sortOf(arr.Elem())
+			inner = sel(c.get(st, c.regElem(s)), t, arraySort(c.sc.idxSort(), s))
+		} else {
+			s := c.sortOf(u.Elem())
+			inner = sel(c.get(st, c.regHeap(s)), t, s)
+		}
+		e := c.rnodeFor(inner, u.Elem(), st, depth+1)
+		if e == nil {
+			return nil
+		}
+		return &rnode{kind: "ptr", ty: ty, term: t, elems: []*rnode{e}}
+	}
+	return nil
+}
+
+func (n *rnode) collect(out *[]Term) {
+	switch n.kind {
+	case "int", "bool":
+		*out = append(*out, n.term)
+	case "string":
+		*out = append(*out, n.lenT)
+		*out = append(*out, n.chars...)
+	case "slice":
+		*out = append(*out, n.lenT)
+		for _, e := range n.elems {
+			e.collect(out)
+		}
+	case "array", "struct", "ptr":
+		for _, e := range n.elems {
+			e.collect(out)
+		}
+	}
+}
+
+// ---- model values ---------------------------------------------------------------------------
+
+// parseGetValue parses z3/cvc5 `(get-value ...)` output into term-text -> value-text.
+func parseGetValue(out string) []string {
+	var res []string
+	i := strings.Index(out, "((")
+	if i < 0 {
+		return res
+	}
+	s := out[i:]
+	// tokenise into s-expressions
+	pos := 0
+	var parse func() string
+	parse = func() string {
+		for pos < len(s) && (s[pos] == ' ' || s[pos] == '\n' || s[pos] == '\t') {
+			pos++
+		}
+		if pos >= len(s) {
+			return ""
+		}
+		if s[pos] == '(' {
+			depth := 0
+			start := pos
+			for pos < len(s) {
+				if s[pos] == '(' {
+					depth++
+				} else if s[pos] == ')' {
+					depth--
+					if depth == 0 {
+						pos++
+						return s[start:pos]
+					}
+				}
+				pos++
+			}
+			return s[start:]
+		}
+		start := pos
+		for pos < len(s) && s[pos] != ' ' && s[pos] != '\n' && s[pos] != ')' && s[pos] != '(' {
+			pos++
+		}
+		return s[start:pos]
+	}
+	// outer list
+	if s[pos] != '(' {
+		return res
+	}
+	pos++
+	for pos < len(s) {
+		for pos < len(s) && (s[pos] == ' ' || s[pos] == '\n') {
+			pos++
+		}
+		if pos >= len(s) || s[pos] == ')' {
+			break
+		}
+		if s[pos] != '(' {
+			break
+		}
+		pos++ // pair open
+		k := parse()
+		v := parse()
+		for pos < len(s) && s[pos] != ')' {
+			pos++
+		}
+		pos++
+		_ = k
+		res = append(res, normSpace(v))
+	}
+	return res
+}
+
+func normSpace(s string) string { return strings.Join(strings.Fields(s), " ") }
+
+func bvValue(v string) (uint64, int, bool) {
+	switch {
+	case strings.HasPrefix(v, "#x"):
+		n, err := strconv.ParseUint(v[2:], 16, 64)
+		return n, len(v[2:]) * 4, err == nil
+	case strings.HasPrefix(v, "#b"):
+		n, err := strconv.ParseUint(v[2:], 2, 64)
+		return n, len(v[2:]), err == nil
+	case strings.HasPrefix(v, "(_ bv"):
+		f := strings.Fields(strings.Trim(v, "()"))
+		if len(f) == 3 {
+			n, err := strconv.ParseUint(strings.TrimPrefix(f[1], "bv"), 10, 64)
+			w, _ := strconv.Atoi(f[2])
+			return n, w, err == nil
+		}
+	}
+	if n, err := strconv.ParseInt(v, 10, 64); err == nil {
+		return uint64(n), 64, true
+	}
+	if strings.HasPrefix(v, "(- ") {
+		if n, err := strconv.ParseInt(strings.TrimSuffix(strings.TrimPrefix(v, "(- "), ")"), 10, 64); err == nil {
+			return uint64(-n), 64, true
+		}
+	}
+	return 0, 0, false
+}
+
+func intLiteral(v string, ty types.Type) (string, bool) {
+	n, w, ok := bvValue(v)
+	if !ok {
+		return "", false
+	}
+	if isUnsigned(ty) {
+		return fmt.Sprintf("%d", n), true
+	}
+	// signed: interpret by width
+	if w < 64 && n&(1<<uint(w-1)) != 0 {
+		return fmt.Sprintf("%d", int64(n)-(int64(1)<<uint(w))), true
+	}
+	return fmt.Sprintf("%d", int64(n)), true
+}
+
+// goLiteral renders the model value of node n as a Go expression (in package pkg).
+func (n *rnode) goLiteral(vals map[string]string, q types.Qualifier, ints *[]int64) (string, bool) {
+	tyStr := types.TypeString(n.ty, q)
+	get := func(t Term) (string, bool) { v, ok := vals[normSpace(t.S)]; return v, ok }
+	switch n.kind {
+	case "int":
+		v, ok := get(n.term)
+		if !ok {
+			return "", false
+		}
+		lit, ok := intLiteral(v, n.ty)
+		if !ok {
+			return "", false
+		}
+		if x, err := strconv.ParseInt(lit, 10, 64); err == nil {
+			*ints = append(*ints, x)
+		}
+		return fmt.Sprintf("%s(%s)", tyStr, lit), true
+	case "bool":
+		v, ok := get(n.term)
+		return v, ok && (v == "true" || v == "false")
+	case "string":
+		lv, ok := get(n.lenT)
+		if !ok {
+			return "", false
+		}
+		ln, _, ok := bvValue(lv)
+		if !ok || ln > replayMaxElems {
+			return "", false
+		}
+		var bs []byte
+		for i := 0; i < int(ln); i++ {
+			cv, ok := get(n.chars[i])
+			if !ok {
+				return "", false
+			}
+			b, _, ok := bvValue(cv)
+			if !ok {
+				return "", false
+			}
+			bs = append(bs, byte(b))
+		}
+		return fmt.Sprintf("%s(%q)", tyStr, string(bs)), true
+	case "slice":
+		lv, ok := get(n.lenT)
+		if !ok {
+			return "", false
+		}
+		ln, _, ok := bvValue(lv)
+		if !ok || ln > 1<<16 {
+			return "", false
+		}
+		*ints = append(*ints, int64(ln))
+		var parts []string
+		for i := 0; i < int(ln) && i < replayMaxElems; i++ {
+			e, ok := n.elems[i].goLiteral(vals, q, ints)
+			if !ok {
+				return "", false
+			}
+			parts = append(parts, e)
+		}
+		if int(ln) > replayMaxElems {
+			// elements beyond the extracted prefix are zero
+			return fmt.Sprintf("append(%s{%s}, make(%s, %d)...)", tyStr, strings.Join(parts, ", "), tyStr, int(ln)-replayMaxElems), true
+		}
+		return fmt.Sprintf("%s{%s}", tyStr, strings.Join(parts, ", ")), true
+	case "array":
+		var parts []string
+		for _, e := range n.elems {
+			s, ok := e.goLiteral(vals, q, ints)
+			if !ok {
+				return "", false
+			}
+			parts = append(parts, s)
+		}
+		return fmt.Sprintf("%s{%s}", tyStr, strings.Join(parts, ", ")), true
+	case "struct":
+		st := n.ty.Underlying().(*types.Struct)
+		var parts []string
+		for i, e := range n.elems {
+			s, ok := e.goLiteral(vals, q, ints)
+			if !ok {
+				return "", false
+			}
+			parts = append(parts, st.Field(i).Name()+": "+s)
+		}
+		return fmt.Sprintf("%s{%s}", tyStr, strings.Join(parts, ", ")), true
+	case "ptr":
+		s, ok := n.elems[0].goLiteral(vals, q, ints)
+		if !ok {
+			return "", false
+		}
+		et := types.TypeString(n.ty.Underlying().(*types.Pointer).Elem(), q)
+		return fmt.Sprintf("func() *%s { v := %s; return &v }()", et, s), true
+	}
+	return "", false
+}
+
+// ---- contract expression -> Go ----------------------------------------------------------------
+
+type goTr struct {
+	old    bool
+	params map[string]bool
+	nres   int
+	ok     bool
+	cands  string // name of the []int candidate slice for quantifiers
+}
+
+func (g *goTr) tr(e CExpr) string {
+	switch x := e.(type) {
+	case *CIdent:
+		if x.Name == "result" {
+			if g.nres == 1 {
+				return "r0"
+			}
+			g.ok = false
+			return "nil"
+		}
+		if g.old && g.params[x.Name] {
+			return "old_" + x.Name
+		}
+		return x.Name
+	case *CInt:
+		return x.Text
+	case *CStrL:
+		return fmt.Sprintf("%q", x.Val)
+	case *CBoolL:
+		return fmt.Sprint(x.Val)
+	case *CNil:
+		return "nil"
+	case *CBin:
+		a, b := g.tr(x.X), g.tr(x.Y)
+		switch x.Op {
+		case "==>":
+			return "(!(" + a + ") || (" + b + "))"
+		case "<==>":
+			return "((" + a + ") == (" + b + "))"
+		case "in":
+			g.ok = false
+			return "false"
+		}
+		return "(" + a + " " + x.Op + " " + b + ")"
+	case *CUn:
+		return "(" + x.Op + g.tr(x.X) + ")"
+	case *CSel:
+		if id, ok := x.X.(*CIdent); ok && id.Name == "result" {
+			return "r" + x.Sel
+		}
+		return g.tr(x.X) + "." + x.Sel
+	case *CIdx:
+		return g.tr(x.X) + "[" + g.tr(x.I) + "]"
+	case *CCall:
+		if id, ok := x.Fun.(*CIdent); ok {
+			switch id.Name {
+			case "old":
+				saved := g.old
+				g.old = true
+				s := g.tr(x.Args[0])
+				g.old = saved
+				return s
+			case "isNilIface":
+				return "(" + g.tr(x.Args[0]) + " == nil)"
+			case "isFresh", "typeOf":
+				g.ok = false
+				return "true"
+			}
+		}
+		var as []string
+		for _, a := range x.Args {
+			as = append(as, g.tr(a))
+		}
+		return g.tr(x.Fun) + "(" + strings.Join(as, ", ") + ")"
+	case *CCond:
+		return "func() bool { if " + g.tr(x.C) + " { return " + g.tr(x.A) + " }; return " + g.tr(x.B) + " }()"
+	case *CQuant:
+		// quantifiers range over a finite candidate set derived from the model
+		body := g.tr(x.Body)
+		var b strings.Builder
+		b.WriteString("func() bool { ")
+		for _, v := range x.Vars {
+			fmt.Fprintf(&b, "for _, %s_ := range %s { %s := %s(%s_); _ = %s; ", v.Name, g.cands, v.Name, v.T.String(), v.Name, v.Name)
+		}
+		if x.Forall {
+			fmt.Fprintf(&b, "if !(%s) { return false }; ", body)
+		} else {
+			fmt.Fprintf(&b, "if %s { return true }; ", body)
+		}
+		for range x.Vars {
+			b.WriteString("}; ")
+		}
+		if x.Forall {
+			b.WriteString("return true }()")
+		} else {
+			b.WriteString("return false }()")
+		}
+		return b.String()
+	case *CEvent:
+		g.ok = false
+		return "true"
+	case *CTypeExpr:
+		return x.T.String()
+	}
+	g.ok = false
+	return "true"
+}
+
+// deepCopyExpr returns a Go expression copying a value of type ty (for old()).
+func deepCopyExpr(name string, ty types.Type, q types.Qualifier) (string, bool) {
+	switch u := ty.Underlying().(type) {
+	case *types.Basic, *types.Array, *types.Struct:
+		return name, true
+	case *types.Slice:
+		if _, ok := u.Elem().Underlying().(*types.Slice); ok {
+			return "", false
+		}
+		return fmt.Sprintf("append(%s(nil), %s...)", types.TypeString(ty, q), name), true
+	case *types.Pointer:
+		inner, ok := deepCopyExpr("(*"+name+")", u.Elem(), q)
+		if !ok {
+			return "", false
+		}
+		return fmt.Sprintf("func() %s { v := %s; return &v }()", types.TypeString(ty, q), inner), true
+	}
+	return "", false
+}
+
+// replayGenerated builds and runs the replay test for a failed obligation.
 func replayGenerated(prop string, r *oblResult, path string) bool {
-	return false
+	rs := r.Fn.Replay
+	appendTo := func(format string, a ...interface{}) {
+		f, _ := os.OpenFile(path, os.O_APPEND|os.O_WRONLY, 0o644)
+		if f != nil {
+			fmt.Fprintf(f, format, a...)
+			f.Close()
+		}
+	}
+	if rs == nil || !rs.ok {
+		why := "no replay specification"
+		if rs != nil {
+			why = rs.why
+		}
+		appendTo("\n--- replay ---\nnot attempted: %s\n", why)
+		return false
+	}
+	if r.V.Status != "sat" {
+		appendTo("\n--- replay ---\nnot attempted: the solver gave no model (%s)\n", r.V.Status)
+		return false
+	}
+	// ask the solver again for the values of the replay terms
+	var terms []Term
+	for _, p := range rs.params {
+		p.collect(&terms)
+	}
+	o2 := *r.O
+	o2.ModelOf = nil
+	for i, t := range terms {
+		o2.ModelOf = append(o2.ModelOf, ModelVar{fmt.Sprint(i), t})
+	}
+	q := r.Fn.Script.query(&o2, true)
+	// prefer small models: bound every slice / string length, relaxing the bound when unsatisfiable
+	var lens []Term
+	var lenOf func(n *rnode)
+	lenOf = func(n *rnode) {
+		if n.kind == "slice" || n.kind == "string" {
+			lens = append(lens, n.lenT)
+		}
+		if n.kind != "slice" { // elements of slices are only extracted, not bounded
+			for _, e := range n.elems {
+				lenOf(e)
+			}
+		}
+	}
+	for _, p := range rs.params {
+		lenOf(p)
+	}
+	var v Verdict
+	for _, bound := range []int64{16, 48, 4096, -1} {
+		q2 := q
+		if bound > 0 {
+			var extra strings.Builder
+			for _, l := range lens {
+				if r.Fn.Script.mathInts {
+					fmt.Fprintf(&extra, "(assert (<= %s %d))\n", l.S, bound)
+				} else {
+					fmt.Fprintf(&extra, "(assert (bvsle %s (_ bv%d 64)))\n", l.S, bound)
+				}
+			}
+			q2 = strings.Replace(q, "(check-sat)", extra.String()+"(check-sat)", 1)
+		}
+		v = solve(q2, false, solveOpts{timeout: 20 * 1e9})
+		if v.Status == "sat" {
+			break
+		}
+	}
+	if v.Status != "sat" {
+		appendTo("\n--- replay ---\nnot attempted: model extraction query answered %s\n", v.Status)
+		return false
+	}
+	ordered := parseGetValue(v.Output)
+	if len(ordered) != len(terms) {
+		appendTo("\n--- replay ---\nnot attempted: model extraction returned %d values for %d terms\n", len(ordered), len(terms))
+		return false
+	}
+	vals := map[string]string{}
+	for i, t := range terms {
+		vals[normSpace(t.S)] = ordered[i]
+	}
+	qual := func(p *types.Package) string {
+		if p == rs.fn.Pkg.Pkg {
+			return ""
+		}
+		return p.Name()
+	}
+	var ints []int64
+	var args []string
+	for i, p := range rs.params {
+		lit, ok := p.goLiteral(vals, qual, &ints)
+		if !ok {
+			appendTo("\n--- replay ---\nnot attempted: could not build a Go value for parameter %s from the model\nmodel values: %v\n", rs.names[i], ordered)
+			return false
+		}
+		args = append(args, lit)
+	}
+	// candidate integers for quantifiers
+	cset := map[int64]bool{}
+	for _, x := range ints {
+		for d := int64(-9); d <= 9; d++ {
+			cset[x+d] = true
+		}
+		cset[x*8] = true
+		for d := int64(0); d < 8; d++ {
+			cset[x*8+d] = true
+			cset[x*8-d] = true
+		}
+	}
+	for x := int64(-2); x < 300; x++ {
+		cset[x] = true
+	}
+	var cands []int64
+	for x := range cset {
+		cands = append(cands, x)
+	}
+	sort.Slice(cands, func(i, j int) bool { return cands[i] < cands[j] })
+	var cs []string
+	for _, x := range cands {
+		cs = append(cs, fmt.Sprint(x))
+	}
+	// the call
+	sig := rs.fn.Signature
+	nres := sig.Results().Len()
+	var lhs []string
+	for i := 0; i < nres; i++ {
+		lhs = append(lhs, fmt.Sprintf("r%d", i))
+	}
+	var call string
+	if sig.Recv() != nil {
+		call = fmt.Sprintf("%s.%s(%s)", rs.names[0], rs.fn.Name(), strings.Join(rs.names[1:], ", "))
+	} else {
+		call = fmt.Sprintf("%s(%s)", rs.fn.Name(), strings.Join(rs.names, ", "))
+	}
+	var b strings.Builder
+	fmt.Fprintf(&b, "package %s\n\n// generated by govc from the counter-model of obligation %s\n\nimport \"testing\"\n\n", rs.pkgName, r.O.Name)
+	fmt.Fprintf(&b, "func TestVerifReplayGenerated(t *testing.T) {\n\tcands := []int{%s}\n\t_ = cands\n", strings.Join(cs, ", "))
+	params := map[string]bool{}
+	for i, n := range rs.names {
+		fmt.Fprintf(&b, "\t%s := %s\n\t_ = %s\n", n, args[i], n)
+		params[n] = true
+	}
+	wantPost := !isSafetyKind(r.O.Kind)
+	if wantPost {
+		for i, n := range rs.names {
+			cp, ok := deepCopyExpr(n, rs.params[i].ty, qual)
+			if !ok {
+				cp = n
+			}
+			fmt.Fprintf(&b, "\told_%s := %s\n\t_ = old_%s\n", n, cp, n)
+		}
+	}
+	b.WriteString("\tdefer func() {\n\t\tif r := recover(); r != nil {\n\t\t\tt.Fatalf(\"VIOLATION: the real function panicked on the model's input: %v\", r)\n\t\t}\n\t}()\n")
+	if nres > 0 {
+		fmt.Fprintf(&b, "\t%s := %s\n", strings.Join(lhs, ", "), call)
+		for _, l := range lhs {
+			fmt.Fprintf(&b, "\t_ = %s\n", l)
+		}
+	} else {
+		fmt.Fprintf(&b, "\t%s\n", call)
+	}
+	checked := 0
+	if wantPost {
+		for i, cl := range rs.ensures {
+			g := &goTr{params: params, nres: nres, ok: true, cands: "cands"}
+			src := g.tr(cl.Expr)
+			if !g.ok {
+				continue
+			}
+			checked++
+			fmt.Fprintf(&b, "\tif !(%s) {\n\t\tt.Fatalf(\"VIOLATION: postcondition %s does not hold on the model's input\")\n\t}\n", src, clauseLabel(cl, i))
+		}
+	}
+	b.WriteString("}\n")
+	src := b.String()
+	goPath := strings.TrimSuffix(path, ".txt") + "_test.go.txt"
+	os.WriteFile(goPath, []byte(src), 0o644)
+	if wantPost && checked == 0 {
+		appendTo("\n--- replay ---\nnot attempted: no postcondition of this function could be compiled to Go\n")
+		return false
+	}
+	failed, out := runOverlayTest(rs.pkgDir, "TestVerifReplayGenerated", goPath, "zz_verif_replay_generated_test.go")
+	appendTo("\n--- replay on the real code (generated test %s, package %s) ---\nreproduced: %v\n%s\n--- generated test ---\n%s\n", filepath.Base(goPath), rs.pkgDir, failed, out, src)
+	return failed
 }
